@@ -3,15 +3,15 @@ CONSTANTS
   GenFiles = {1, 3}
   OtherFiles = {}
   Modes = {292, 420}
-  Variants = {0}
-  ChmodGate = FALSE
+  Variants = {0, 4, 7, 8}
+  ChmodGate = TRUE
   CopyGate = TRUE
   Truncates = TRUE
-  PPOrder = "program_first"
-  Privileged = FALSE
+  PPOrder = "mode_first"
+  Privileged = TRUE
   OptsSel = "all"
   EnvOn = TRUE
   Record = FALSE
   MaxSteps = 0
-INVARIANT RunEndOK
+INVARIANT RequestedMode
 CHECK_DEADLOCK FALSE
